@@ -110,6 +110,18 @@ func VerifC17Step() {
 		vAssert(me.Nick == server, "me-is-servers-nick")
 	}
 	vAssert(conn.Config().Me != nil, "config-me-non-nil-after-Me")
+	// second step: the user who now holds the client's previous nick changes nick; the client's is unaffected
+	if server != mine && me != nil && vLen("old-holder-renames", 0, 1) == 1 {
+		n3 := vGenNick("holder-new", L)
+		vAssume(n3 != server && n3 != other && n3 != mine)
+		l2 := ParseLine(":" + mine + "!x@y NICK " + n3)
+		vAssume(l2 != nil)
+		conn.dispatch(l2)
+		vRunPending()
+		vDrain(conn)
+		me2 := conn.Me()
+		vAssert(me2 != nil && me2.Nick == server, "unaffected-by-old-nick-holder")
+	}
 	vReach("end")
 }
 
